@@ -344,6 +344,12 @@ fn observe(st: &WarpState, w: WarpId, nodes: &BTreeSet<NodeId>, edges: &BTreeSet
     m
 }
 
+#[cfg(not(any(debug_assertions, feature = "enf")))]
+fn op_case(_rep: &mut Report, _args: &Args, _case: u64) {
+    // attribution only exists where enforcement is compiled in; run() refuses such builds
+}
+
+#[cfg(any(debug_assertions, feature = "enf"))]
 fn op_case(rep: &mut Report, args: &Args, case: u64) {
     let mut rng = Rng::for_case(args.seed, "C14/op", case);
     let g = gen::gen_graph(&mut rng, &gen::GraphParams { max_instances: 2, min_nodes: 3, max_nodes: 9, few_shards: false });
